@@ -395,7 +395,7 @@ def cases(tier, rng):
                 r["h"] = rng.choice(["", " ", "  \t", " lead", "\tx", " a b", r["h"] + " ", "\x0b"])
         yield {"op": "create_index", "recs": recs}
     # 2e. sessions: several calls on ONE open IndexedFasta, interval tiles that start exactly where the previous read ended
-    for _ in range(600 if big else 90):
+    for _ in range(900 if big else 160):
         recs = _rand_recs(rng, 24 if rng.random() < 0.7 else 60, 9, big_file=rng.random() < 0.3)
         yield {"op": "session", "recs": recs, "steps": _session_steps(rng, recs)}
     # 3. random multi-record files
@@ -427,6 +427,21 @@ def _session_steps(rng, recs):
     starts exactly where the previous read on that object stopped (same contig: a = previous b; or base 0 of the next contig)"""
     names = [name_of(r) for r in recs]
     by = {name_of(r): r for r in recs}
+    if rng.random() < 0.45:
+        # the canonical triple: a tile, something that moves the file position, the adjacent tile (same access path)
+        nm = rng.choice(names)
+        n, w = len(by[nm]["seq"]), by[nm]["w"]
+        if n >= 2:
+            b1 = rng.choice([k for k in range(1, n) if k % w in (0, 1)] or [1]) if rng.random() < 0.5 else rng.randint(1, n - 1)
+            a1 = rng.randrange(b1)
+            b2 = rng.randint(b1 + 1, n)
+            string = rng.random() < 0.5
+            other = rng.choice(names)
+            mid = rng.choice([{"k": "contig", "name": nm}, {"k": "contig", "name": other}, {"k": "items"}, {"k": "values"},
+                              {"k": "fetch", "ivs": [{"name": other, "a": 0, "b": len(by[other]["seq"])}], "string": not string}])
+            return [{"k": "fetch", "ivs": [{"name": nm, "a": a1, "b": b1}], "string": string}, mid,
+                    {"k": "fetch", "ivs": [{"name": nm, "a": b1, "b": b2}], "string": string},
+                    {"k": "contig", "name": nm}]
     steps, last = [], None            # last = (name, end) of the most recent read
     for _ in range(rng.randint(2, 7)):
         kind = rng.random()
